@@ -106,12 +106,13 @@ def cases(draw, processes_share=0.12):
     # decisive choices first; the minimal value of every draw is the common / cheap case (threads, no failing task)
     what = draw(st.sampled_from(['iter'] * 6 + ['batch', 'batch', 'store']))
     iface = draw(st.sampled_from(IFACES))
+    akw = draw(st.sampled_from([{}, {'dtype': object}, {}, {'name': 'res'}, {'dtype': object, 'name': ('n', 1)}]))  # options of apply / apply_pool
     use_threads = draw(st.floats(0, 1)) < (1 - processes_share)
     n = draw(st.sampled_from([5, 3, 7, 4, 2, 6, 8, 1]))
     ch = {'workers': draw(st.sampled_from([3, 2, 1, 4, 7, 8, 5, 6])), 'chunksize': draw(st.sampled_from([c for c in (2, 1, 3, n, n + 1, 4) if c <= n + 1])),
           'fail': draw(st.one_of(st.none(), st.none(), st.integers(0, n - 1))), 'step_ms': draw(st.sampled_from([2, 3, 4])),
           'batch_op': draw(st.sampled_from(['apply', 'apply_except', 'apply_items', 'sum', 'apply_items_except', 'iloc'])), 'fmt': draw(st.sampled_from(['zip_pickle', 'zip_csv']))}
-    return dict({'what': what, 'iface': iface, 'n': n, 'perm': draw(st.permutations(list(range(n)))), 'threads': use_threads}, **ch)
+    return dict({'what': what, 'iface': iface, 'akw': akw, 'n': n, 'perm': draw(st.permutations(list(range(n)))), 'threads': use_threads}, **ch)
 
 
 def _set_schedule(case, mult=1):
@@ -176,9 +177,12 @@ def check(case):
             classes.append('iface:' + case['iface'])
             _clear_schedule()
             FAIL_ID[0] = case['fail']
-            seq = lib(lambda: _iter_node(case).apply(task))
-            par, achieved = _scheduled(case, lambda: _iter_node(case).apply_pool(task, max_workers=case['workers'], chunksize=case['chunksize'], use_threads=case['threads']), seq)
-            return _compare(case, seq, par, achieved, classes, 'apply_pool(%s, workers=%d, chunksize=%d, threads=%s)' % (case['iface'], case['workers'], case['chunksize'], case['threads']))
+            akw = dict(case.get('akw') or {})
+            classes.append('akw:' + ','.join(sorted(akw)))
+            seq = lib(lambda: _iter_node(case).apply(task, **akw))
+            par, achieved = _scheduled(case, lambda: _iter_node(case).apply_pool(task, max_workers=case['workers'], chunksize=case['chunksize'], use_threads=case['threads'], **akw), seq)
+            return _compare(case, seq, par, achieved, classes, 'apply_pool(%s, workers=%d, chunksize=%d, threads=%s%s)' % (
+                case['iface'], case['workers'], case['chunksize'], case['threads'], ''.join(', %s=%r' % kv for kv in sorted(akw.items()))))
         if what == 'batch':
             # the Batch labels are not the frames' names (every third frame has no name at all)
             frames = [sf.Frame(np.array([[i * 100 + 1, i * 100 + 2], [3, 4]]), columns=('a', 'b'), name=('f%d' % i if i % 3 else None)) for i in range(n)]
